@@ -17,7 +17,7 @@ func init() {
 		RaceShards: 4,
 		RaceProcs:  4,
 		Technique:  "runtime set-cover / order / early-stop oracles on the NACK pair helpers, with exhaustive enumeration of (PacketID, bitmap) pairs",
-		Rule: "NackPairsFromSequenceNumbers: all lists of length <= 3 over a 27-value window straddling 65535->0 plus random lists (length <= 300; gaps biased to 0, 1, 15, 16, 17, 18, 65535; sorted, reversed, shuffled, duplicates); " +
+		Rule: "NackPairsFromSequenceNumbers: all lists of length <= 3 over a 27-value window straddling 65535->0 plus random lists (length <= 300; gaps biased to 0, 1, 15, 16, 17, 18, 65535, about half the ring, slightly backwards; all lists of length <= 4 over a 16-value alphabet of neighbours, pair-width and half-ring distances; sorted, reversed, shuffled, duplicates); " +
 			"PacketList/Range: all 2^16 bitmaps x 40 packet ids (quick) / all 2^32 (id, bitmap) pairs (thorough); early stop: all 18 stop positions x all 2^16 bitmaps; " +
 			"cold start: child processes whose first calls into PacketList/Range/NackPairsFromSequenceNumbers are made by 2..32 goroutines at once, compared with a sequential child, with and without the race detector; " +
 			"non-trivial = every case; pairs are distinct by construction, lists by digest",
@@ -168,6 +168,27 @@ func runC12(c *core.Ctx) {
 		cs.DistinctN(1)
 		c12List(cs, in)
 	})
+	// all lists of length <= 4 over an alphabet that has numbers next to each other, a full pair
+	// width apart and half the ring apart (where a signed 16-bit distance changes sign)
+	alpha := []uint16{0, 1, 2, 3, 15, 16, 17, 32766, 32767, 32768, 32769, 32770, 32771, 65533, 65534, 65535}
+	a := uint64(len(alpha))
+	c.Exhaustive("all lists of length <= 4 over a 16-value alphabet with neighbours, pair-width and half-ring distances", 1+a+a*a+a*a*a+a*a*a*a)
+	c.Section("lists-half-ring", a*a*a*a, func(cs *core.Case) {
+		x := cs.Idx
+		in := []uint16{alpha[x/(a*a*a)], alpha[x/(a*a)%a], alpha[x/a%a], alpha[x%a]}
+		base := uint16(0)
+		if x%7 == 3 {
+			base = cs.R.U16() // the same shape anywhere on the ring
+		}
+		for i := range in {
+			in[i] += base
+		}
+		cs.DistinctN(4)
+		// the list and its three proper prefixes
+		for n := 1; n <= 4; n++ {
+			c12List(cs, in[:n])
+		}
+	})
 	c.Section("lists-random", c.N(400000, 10000000), func(cs *core.Case) {
 		r := cs.R
 		n := r.Pick(1, 2, 3, 5, 17, 18, 33, r.Intn(300))
@@ -178,7 +199,7 @@ func runC12(c *core.Ctx) {
 		}
 		for i := 0; i < n; i++ {
 			in = append(in, cur)
-			gap := r.Pick(0, 1, 1, 1, 2, 15, 16, 17, 18, 65535, r.Intn(40), int(r.U16()))
+			gap := r.Pick(0, 1, 1, 1, 2, 15, 16, 17, 18, 65535, r.Intn(40), int(r.U16()), 32766+r.Intn(5), 65536-r.Intn(20))
 			cur += uint16(gap)
 		}
 		switch r.Intn(5) {
